@@ -141,7 +141,12 @@ func init() {
 	}
 	FunctionType.Dict["__kwdefaults__"] = &Property{
 		Fget: func(self Object) (Object, error) {
-			return self.(*Function).KwDefaults, nil
+			f := self.(*Function)
+			if f.KwDefaults == nil {
+				// no keyword only defaults: None, not a dict that cannot be written to
+				return None, nil
+			}
+			return f.KwDefaults, nil
 		},
 		Fset: func(self, value Object) error {
 			f := self.(*Function)
@@ -159,7 +164,12 @@ func init() {
 	}
 	FunctionType.Dict["__annotations__"] = &Property{
 		Fget: func(self Object) (Object, error) {
-			return self.(*Function).Annotations, nil
+			f := self.(*Function)
+			if f.Annotations == nil {
+				// created on first access so that it can be added to
+				f.Annotations = NewStringDict()
+			}
+			return f.Annotations, nil
 		},
 		Fset: func(self, value Object) error {
 			f := self.(*Function)
